@@ -1,5 +1,5 @@
 // ===========================================================================
-// prelude/clientsync_ap.rs — stand-ins of the units `clientsync` / `clientstore`
+// prelude/clientsync_ap.rs — stand-ins of the unit `clientsync`
 // for everything the extracted client code (folder_sync.rs, backend folder.rs,
 // secret_storage.rs, traits.rs) calls but that lives in another unit: the
 // backend access point (contracts = labels proved in unit `vaultmem`), the
